@@ -119,6 +119,16 @@ func Close[C ~chan V | ~chan<- V, V any](ch C) {
 	close(ch)
 }
 
+// MarkClosed tells the model that ch was closed outside the simulation (by
+// harness set-up code, before any simulated operation touched it).
+func MarkClosed[C ~chan V | ~chan<- V, V any](ch C) {
+	t := current()
+	if t == nil || t.aborting {
+		return
+	}
+	t.call(request{kind: regMarkClosed, obj: chanKey(ch), chlen: len(ch), chcap: cap(ch)})
+}
+
 // Select is the rewritten form of a select statement.
 type Select struct {
 	t     *task
